@@ -253,17 +253,24 @@ func genC01Wide(t *rapid.T) c01Case {
 
 // wideFormula: an or (and) of 2-5 operands, each a conjunction (disjunction) of 1-3 atoms, the cross product of the
 // group sizes bounded by 24; some conjunctions are written as one propertyConstraints map.
-func wideFormula(t *rapid.T, g *fgen) *m.F {
+func wideFormula(t *rapid.T, g *fgen) *m.F { return wideFormulaMin(t, g, 2) }
+
+// wideFormulaMin: at least kmin operands; with kmin >= 4 the groups lean towards two members (four two-member
+// groups is where the cross product first outgrows its initial capacity)
+func wideFormulaMin(t *rapid.T, g *fgen, kmin int) *m.F {
 	outer := rapid.SampledFrom([]string{"or", "or", "and"}).Draw(t, "outer")
 	inner := "and"
 	if outer == "and" {
 		inner = "or"
 	}
-	k := rapid.IntRange(2, 5).Draw(t, "operands")
+	k := rapid.IntRange(kmin, 5).Draw(t, "operands")
 	var subs []*m.F
 	product := 1
 	for i := 0; i < k; i++ {
 		n := rapid.IntRange(1, 3).Draw(t, "groupSize")
+		if kmin >= 4 && n == 1 && rapid.Bool().Draw(t, "pair") {
+			n = 2
+		}
 		if product*n > 24 { // the translator emits one rule per element of the cross product
 			n = 1
 		}
